@@ -171,4 +171,9 @@ example : getMdl (defineAll Registry.empty [⟨0, 7, 100, false⟩, ⟨0, 7, 101
 /-- the validators' accepted ranges (σ₈, n, z, δc, WDM particle mass) are the documented ones -/
 theorem guards_validators : Gen.Guards.transfer = Spec.Guards.transfer ∧ Gen.Guards.massFunction = Spec.Guards.massFunction ∧ Gen.Guards.wdm = Spec.Guards.wdm := by decide
 
+/-- the range checks on model parameters made at construction (Tinker10: γ > 0, η > −1/2, η − φ > −1/2, β > 0) test the
+    redshift-evolved values the fit uses, with the documented bounds -/
+theorem guards_model_parameter_ranges : Gen.Guards.fitParameterRanges = Spec.Guards.fitParameterRanges := by decide
+example : Spec.Guards.fitParameterRanges.length = 4 := by decide
+
 end Hmf.C14
